@@ -4,6 +4,7 @@
 // (3) binary and ascii restorations agree; (4) continuation on S and on the restored grid gives identical digests
 // after every step; (5) file and stream entry points produce the same bytes.
 #include "observe.hpp"
+#include "history.hpp"
 
 namespace vf {
 
@@ -23,16 +24,13 @@ void check_C06(Src &s, Ctx &ctx) {
     bool empty_grid = s.chance(1, 40);
     if (!empty_grid) make_grid(st.g, st.spec, so.cap);
     ctx.log(empty_grid ? "EMPTY GRID" : st.spec.text());
-    static const std::vector<int> kinds = {OP_LOAD, OP_LOAD, OP_REF_SURP, OP_REF_ANISO, OP_RELOAD, OP_UPDATE, OP_CLEAR_REF, OP_MERGE, OP_SET_COEFF, OP_BEGIN_CONSTR,
+    static const std::vector<int> kinds = {OP_LOAD, OP_LOAD, OP_REF_SURP, OP_REF_ANISO, OP_RELOAD, OP_UPDATE, OP_CLEAR_REF, OP_MERGE, OP_SET_COEFF, OP_BEGIN_CONSTR, OP_BEGIN_CONSTR, OP_BEGIN_CONSTR,
         OP_CANDIDATES, OP_LOAD_CONSTR, OP_FINISH_CONSTR, OP_SET_TRANSFORM, OP_CLEAR_TRANSFORM, OP_SET_CONFORMAL, OP_CLEAR_CONFORMAL, OP_CLEAR_LIMITS, OP_REMOVE_BY_COEFF,
         OP_ROUNDTRIP, OP_COPY};
     // histories are biased towards "load first" so that the interesting states are reached with few bytes
-    int nops = s.pick(10);
-    for (int i = 0; i < nops; i++) {
-        Op op; if (i == 0 && !s.chance(1, 5)) { op.kind = OP_LOAD; } else op = decode_op(s, st.spec, kinds);
-        apply_op(st, op);
-    }
-    int route = s.pick(4); bool binary = (route % 2 == 0); bool use_file = route >= 2;
+    int nops = s.pick(12);
+    run_history(s, st, kinds, nops, !s.chance(1, 5), [&](const Op &) {});
+    int route = s.pick(4); bool binary = (route % 2 == 1); bool use_file = route >= 2;
     bool dirty = s.chance(1, 3);
     ctx.log(std::string("route=") + (binary ? "bin" : "ascii") + (use_file ? "-file" : "-stream") + (dirty ? " dirty-target" : ""));
 
